@@ -282,10 +282,14 @@ func runTool(dir string, budget time.Duration, gomaxprocs int, cpus string, bin 
 	return res
 }
 
+// rawName: the directory component "@gbk" of a generated path stands for a name that is not valid UTF-8 (a GBK-encoded
+// folder name from a legacy system); it is substituted when the tree is written because JSON cannot carry the bytes.
+func rawName(p string) string { return strings.ReplaceAll(p, "@gbk", "batch-\xd1\xf9\xb1\xbe") }
+
 func (c c13Case) materialise(dir string) (map[string][]byte, error) {
 	files := map[string][]byte{}
 	for _, f := range c.Files {
-		p := filepath.Join(dir, f.Path)
+		p := filepath.Join(dir, rawName(f.Path))
 		if err := os.MkdirAll(filepath.Dir(p), 0o755); err != nil {
 			return nil, err
 		}
@@ -466,7 +470,7 @@ func checkC13(c c13Case) (Outcome, error) {
 		}
 		var paths []string
 		for _, f := range c.Files {
-			paths = append(paths, filepath.Join(in, f.Path))
+			paths = append(paths, filepath.Join(in, rawName(f.Path)))
 		}
 		shimBin := os.Getenv("VERIF_BIN_SHIM")
 		if c.Race {
@@ -639,7 +643,7 @@ func genC13(t *rapid.T) c13Case {
 		maxFiles = v
 	}
 	nf := rapid.IntRange(max(1, min(envInt("VERIF_MINFILES", 1), maxFiles)), maxFiles).Draw(t, "files")
-	dirs := []string{"", "", "a", "a/b", "a/b/c", "x"}
+	dirs := []string{"", "", "a", "a/b", "a/b/c", "x", "a/@gbk", "@gbk"}
 	seen := map[string]bool{}
 	for i := 0; i < nf; i++ {
 		d := rapid.SampledFrom(dirs).Draw(t, "dir")
